@@ -564,8 +564,130 @@ def grammar_of(eng, prims: Prims, disp: FuncInfo, cls: str, side: str):
             args.append(TypeV(cls, None, "type"))
         else:
             args.append(DataV("data"))
-    it.call_function(disp, args, {}, effects, 0)
+    it.ret = it.call_function(disp, args, {}, effects, 0)
     return effects, it
+
+
+def _isinst_in(c):
+    """isinstance descriptors inside a condition -> [(negated, src, quals)] ; other conjuncts are ignored
+    (they only narrow the admitted set further by value, not by class)."""
+    out = []
+
+    def go(c, neg):
+        if not isinstance(c, tuple) or not c:
+            return
+        if c[0] == "not":
+            go(c[1], not neg)
+        elif c[0] == "isinstance":
+            out.append((neg, c[1], c[2]))
+        elif c[0] == "and" and not neg:
+            for x in c[1]:
+                go(x, neg)
+        elif c[0] == "or" and neg:
+            for x in c[1]:
+                go(x, neg)
+        elif c[0] in ("and", "or"):
+            for x in c[1]:
+                for (n2, s2, q2) in _isinst_in(x):
+                    out.append(("mixed", s2, q2))
+    go(c, False)
+    return out
+
+
+def _other_conjuncts(c):
+    """non-class conjuncts of a positive conjunction -> list of descriptors"""
+    if isinstance(c, tuple) and c and c[0] == "and":
+        out = []
+        for x in c[1]:
+            out += _other_conjuncts(x)
+        return out
+    if isinstance(c, tuple) and c and c[0] == "isinstance":
+        return []
+    if isinstance(c, tuple) and c and c[0] == "not" and isinstance(c[1], tuple) and c[1] and c[1][0] == "isinstance":
+        return []
+    return [c]
+
+
+def fixed_width(eng, K: str) -> Optional[int]:
+    """width of a type class whose constructor fixes its name (FloatType -> 'f32')"""
+    ci = eng.prog.classes.get(K)
+    init = eng.prog.find_method(ci, "__init__") if ci else None
+    if init is None:
+        return None
+    for n in walk_local(init.node):
+        if isinstance(n, ast.Assign) and norm(n.targets[0]) == "self.name" and isinstance(n.value, ast.Constant) and isinstance(n.value.value, str):
+            try:
+                return int(n.value.value[1:])
+            except ValueError:
+                return None
+    return None
+
+
+def dispatcher_bypasses(effs):
+    """`if` effects guarded by an isinstance test on a *non-constant* (element/field) type whose body
+    transfers data without recursing through the dispatcher: [(cond, body)]."""
+    from ..effects import has_transfer
+    out = []
+
+    def has_rec(es):
+        return any(e[0] == "rec" or (e[0] in ("loop", "if") and has_rec(e[2])) for e in es)
+
+    def go(es):
+        for e in es:
+            if e[0] == "if":
+                if _isinst_in(e[1]) and has_transfer(e[2]) and not has_rec(e[2]):
+                    out.append((e[1], e[2]))
+                go(e[2])
+            elif e[0] == "loop":
+                go(e[2])
+    go(effs)
+    return out
+
+
+def check_bypasses(eng, rep, rule: str, prims: Prims, disp: FuncInfo, P: List[str], kn: str, effs) -> bool:
+    """Decoder side. A container handler may skip the dispatcher for its elements only for element classes
+    whose own handler returns the raw word unchanged; any admitted class with a converting handler (sign
+    reconstruction, float unpack, enum/str/struct construction) decodes to the wrong value through the bypass.
+    -> True if the grammar contains a bypass (equality with the canonical grammar is then not asserted)."""
+    from ..effects import WordV
+    bys = dispatcher_bypasses(effs)
+    for c, body in bys:
+        tests = _isinst_in(c)
+        if any(n == "mixed" for n, _, _ in tests):
+            rep.undecided(rule, disp.file, disp.qual, "Eff_dec(%s): bypass under %s" % (kn, str(c)[:80]), "condition mixes class tests in a form not decided")
+            continue
+        admitted = set(P)
+        for neg, src, quals in tests:
+            inside = {K for K in P if any(eng.prog.is_subclass(K, q) for q in quals)}
+            admitted &= (set(P) - inside) if neg else inside
+        import re as _re
+        undecidable = False
+        for oc in _other_conjuncts(c):
+            m = _re.match(r"^[\w\.]+\.get_length\(\) == (\d+)$", oc[1]) if isinstance(oc, tuple) and len(oc) > 1 and oc[0] == "expr" and isinstance(oc[1], str) else None
+            if m:
+                admitted = {K for K in admitted if fixed_width(eng, K) in (None, int(m.group(1)))}
+            else:
+                undecidable = True
+        if undecidable:
+            rep.undecided(rule, disp.file, disp.qual, "Eff_dec(%s): bypass under %s" % (kn, str(c)[:80]), "condition has a conjunct that is neither a class test nor a width test")
+            continue
+        conv = []
+        for K in sorted(admitted):
+            try:
+                _, it = grammar_of(eng, prims, disp, K, "dec")
+            except Unsupported:
+                conv.append(K.split(".")[-1] + "?")
+                continue
+            if not isinstance(it.ret, WordV):
+                conv.append(K.split(".")[-1])
+        txt = canon_effects(body, "dec")
+        if conv and not any(x.endswith("?") for x in conv):
+            rep.violation(rule, disp.file, disp.qual, "Eff_dec(%s): [%s] instead of Rec, for element classes {%s}" % (kn, txt, ", ".join(sorted(k.split(".")[-1] for k in admitted))),
+                          "the container decoder reads its elements directly instead of through the type dispatcher, for a condition that admits %s whose handler converts the word it reads (sign reconstruction / unpack / lookup): those elements decode to the raw unsigned bytes" % ", ".join(conv))
+        else:
+            rep.undecided(rule, disp.file, disp.qual, "Eff_dec(%s): [%s] instead of Rec, for element classes {%s}" % (kn, txt, ", ".join(sorted(k.split(".")[-1] for k in admitted))),
+                          "dispatcher bypass restricted to classes whose handler returns the raw word; width agreement under the condition not decided")
+    return bool(bys)
 
 
 def canon_effects(effs: List, side: str) -> str:
